@@ -263,6 +263,30 @@ pub fn run(tier: Tier) -> ! {
                 cases.push((format!("{k}-character-tag"), vec!['a', 'b'], vec![1], vec![vec![Some(tag.clone())], vec![None, Some(tag)]]));
             }
         }
+        // a delimiter-like character at EVERY byte offset around the block sizes inside one tag, and in the text
+        // itself (the character at that offset of a long sentence), after 1-byte and after 3-byte filler
+        {
+            let mut offs: Vec<usize> = (0..=3).collect();
+            for b in tier.pick(vec![64usize, 128, 256, 512, 1024], vec![64, 128, 256, 512, 1024, 4096, 8192, 65536]) {
+                offs.extend(b - 6..=b + 6);
+            }
+            for &f in &offs {
+                for sp in ['-', '|', ' ', '/', '\\'] {
+                    for filler3 in [false, true] {
+                        let mut body: Vec<char> = if filler3 { std::iter::repeat('あ').take(f / 3).chain(std::iter::repeat('a').take(f % 3)).collect() } else { vec!['a'; f] };
+                        body.push(sp);
+                        body.extend(['a', sp, 'あ']);
+                        let tag: String = body.iter().collect();
+                        cases.push((format!("special-at-byte-{f}-{:?}-filler3={}-in-tag", sp, filler3 as u8), vec!['a', 'b'], vec![(f % 3) as u8], vec![vec![None, Some(tag)], vec![Some("u".into())]]));
+                        if sp != '-' || f % 4 == 0 {
+                            let n = body.len();
+                            let ct: Vec<Vec<Option<String>>> = (0..n).map(|i| if i + 2 == n { vec![Some("t".into())] } else { vec![] }).collect();
+                            cases.push((format!("special-at-byte-{f}-{:?}-filler3={}-in-text", sp, filler3 as u8), body.clone(), (0..n - 1).map(|i| if i + 3 >= n { 1 } else { 0 }).collect(), ct));
+                        }
+                    }
+                }
+            }
+        }
         chk.set("threshold_cases", json!(cases.len()));
         cases.par_iter().for_each(|(label, text, labels, ct)| {
             chk.eval(1);
